@@ -22,24 +22,29 @@ def less (a b : Elem) : Bool :=
     if a.typeOrder ≠ b.typeOrder then a.typeOrder < b.typeOrder else a.index < b.index
   else a.startLine < b.startLine
 
-structure OptLoc where
-  hasLoc : Bool      -- SourceLocation != nil
-  startLine : Nat
-  index : Nat        -- Desc.Index()
-  deriving DecidableEq, Repr
-
-/-- `optionsByLocation.Less` -/
-def locLess (a b : OptLoc) : Bool :=
-  if !a.hasLoc ∨ !b.hasLoc then a.index < b.index
-  else if a.startLine = 0 ∨ b.startLine = 0 then a.index < b.index
-  else a.startLine < b.startLine
-
 /-- bytewise lexicographic `<` (Go string comparison) -/
 def nameLess : List Nat → List Nat → Bool
   | [], [] => false
   | [], _ :: _ => true
   | _ :: _, [] => false
   | a :: as, b :: bs => if a < b then true else if b < a then false else nameLess as bs
+
+structure OptLoc where
+  hasLoc : Bool      -- SourceLocation != nil
+  startLine : Nat
+  index : Nat        -- Desc.Index()
+  name : List Nat    -- Desc.FullName()
+  deriving DecidableEq, Repr
+
+/-- `optionsByLocation.lessByDeclaration` (fix 3895d68: the full name breaks index ties) -/
+def declLess (a b : OptLoc) : Bool :=
+  if a.index ≠ b.index then a.index < b.index else nameLess a.name b.name
+
+/-- `optionsByLocation.Less` -/
+def locLess (a b : OptLoc) : Bool :=
+  if !a.hasLoc ∨ !b.hasLoc then declLess a b
+  else if a.startLine = 0 ∨ b.startLine = 0 then declLess a b
+  else a.startLine < b.startLine
 
 def insertBy {α} (lt : α → α → Bool) (x : α) : List α → List α
   | [] => [x]
